@@ -161,3 +161,101 @@ def check_model_gradient(pm, cname):
 def _full_target(axes, tgt):
     """target index tuple for diff: tensors of axes [1, K] are stored with a placeholder only on their symbolic axes"""
     return tuple(tgt)
+
+
+# ------------------------------------------------------------------------------------------------ Douglas (local chain rules)
+def douglas_local(pm):
+    """two fragments of Douglas._compute_grads judged with declared inputs (the Kronecker / cumsum / sort parts are outside the
+    translated subset):
+      (1) leaf scores: y = softmax(L @ S) with L = self._leaf -> direction of S is -(L^T (softmax backprop of g))
+      (2) one soft binning: B = softmax(z / T); given weighted_grad = g * B, the gradient on z is sum_l g[n,l] dB[n,l]/dz[n,j]
+    -> list of (site, status, detail)"""
+    import copy
+    from .e8_index import mk_exp, mk_pow, mk_var
+    from .e8_numpy import binop, reduce_sum
+    X.SIMPLEX["on"] = False
+    ci = pm.classes["Douglas"]
+    f = ci.methods["_compute_grads"]
+    inf = ci.methods["_infer"]
+    out = []
+    params = [a.arg for a in f.args.args]
+    # ---- structural facts about _infer that the declared inputs rely on
+    src = [norm_src(s_) for s_ in ast.walk(inf) if isinstance(s_, (ast.Assign, ast.Return))]
+    ok_forward = any(s_.replace(" ", "") in ("y_pred=leaf@self.leaf_scores_",) for s_ in src) and "return softmax(y_pred)" in src and "self._leaf = leaf" in src \
+        and "self._all_binnings = all_binnings" in src
+    if not ok_forward:
+        return [("Douglas: forward structure", "undecided", "the last steps of _infer are not `y_pred = leaf @ self.leaf_scores_; return softmax(y_pred)` with the retained "
+                 "leaf / binnings")]
+    # ---- (1) leaf scores
+    L = input_array("L", ["N", "A"])
+    S = input_array("S", ["A", "K"])
+    from .e8_numpy import matmul
+    zL = matmul(L, S)
+    ez = TArr(zL.shape, mk_exp(zL.term))
+    Y = binop("div", ez, reduce_sum(ez, 1, True))
+    attrs = {f"{params[0]}._leaf": L, f"{params[0]}.leaf_scores_": S}
+    env = {params[0]: None, params[1]: input_array("X", ["N", "D"]), params[2]: input_array("y", ["N", "K"]), params[3]: input_array("g", ["N", "K"])}
+    I = TermInterp(env, attrs, mode="model")
+    first = None
+    try:
+        for st in f.body:
+            I.stmt(st)
+            if isinstance(st, ast.Assign) and norm_src(st.targets[0]) == "updates":
+                first = I.env["updates"]
+                break
+    except Unsupported as e:
+        return [("Douglas: direction of leaf_scores_", "undecided", f"outside the translated subset before `updates` is built: {e}")]
+    if not (isinstance(first, list) and first and isinstance(first[0], TArr)):
+        return [("Douglas: direction of leaf_scores_", "undecided", "no `updates = [...]` list")]
+    g0 = first[0]
+    if list(g0.shape) != ["A", "K"]:
+        out.append(("Douglas: direction of leaf_scores_", "different", f"axes {list(g0.shape)}, expected [A, K] (leaves x clusters)"))
+    else:
+        a, k = fresh("A"), fresh("K")
+        n, l = fresh("N"), fresh("K")
+        y_entry = lambda idx: subst(Y.term, {ph("N", 0): idx[0], ph("K", 1): idx[1]})
+        ref = -mk_sum([(n, "N"), (l, "K")], Poly.atom(mk_var("g", (n, l))) * diff(y_entry((n, l)), "S", (a, k)))
+        code = replace_tensor(subst(g0.term, {ph("A", 0): a, ph("K", 1): k}), "y", y_entry)
+        out.append(("Douglas: direction of leaf_scores_", "exact" if is_zero(code - ref) else "different",
+                    "" if is_zero(code - ref) else f"code - chain rule = {repr(code - ref)[:200]}"))
+    # ---- (2) the softmax of one binning, inside the loop over the features
+    loops = [n_ for n_ in f.body if isinstance(n_, ast.For)]
+    site = "Douglas: gradient on the bin logits"
+    if len(loops) != 1:
+        out.append((site, "undecided", "no single loop over the features"))
+        return out
+    stmts = [s_ for s_ in loops[0].body if isinstance(s_, (ast.Assign, ast.AugAssign)) and norm_src(s_.targets[0] if isinstance(s_, ast.Assign) else s_.target) == "bin_grad"]
+    if not stmts:
+        out.append((site, "undecided", "no assignment to bin_grad"))
+        return out
+    z = input_array("z", ["N", "B"])
+    T = TArr((), Poly.sym("T"))
+    zt = binop("div", z, T)
+    eb = TArr(zt.shape, mk_exp(zt.term))
+    B = binop("div", eb, reduce_sum(eb, 1, True))
+    gB = input_array("gB", ["N", "B"])
+    idx_name = loops[0].target.elts[0].id if isinstance(loops[0].target, ast.Tuple) and isinstance(loops[0].target.elts[0], ast.Name) else "i"
+
+    class BinInterp(TermInterp):
+        def subscript(self, e):
+            if norm_src(e) == f"{params[0]}._all_binnings[{idx_name}]":
+                return B
+            return TermInterp.subscript(self, e)
+    J = BinInterp({params[0]: None, "weighted_grad": binop("mul", gB, B), idx_name: 0}, {f"{params[0]}.temperature": T}, mode="model")
+    try:
+        for st in stmts:
+            J.stmt(st)
+    except Unsupported as e:
+        out.append((site, "undecided", f"outside the translated subset: {e}"))
+        return out
+    bg = J.env.get("bin_grad")
+    if not isinstance(bg, TArr) or list(bg.shape) != ["N", "B"]:
+        out.append((site, "different", f"bin_grad has axes {list(getattr(bg, 'shape', []))}, expected [N, B]"))
+        return out
+    n, j, l = fresh("N"), fresh("B"), fresh("B")
+    b_entry = lambda idx: subst(B.term, {ph("N", 0): idx[0], ph("B", 1): idx[1]})
+    ref = mk_sum([(l, "B")], Poly.atom(mk_var("gB", (n, l))) * diff(b_entry((n, l)), "z", (n, j)))
+    # d/dz[n,j] of B[n,l] carries delta(n,n) = 1 for the same row
+    code = subst(bg.term, {ph("N", 0): n, ph("B", 1): j})
+    out.append((site, "exact" if is_zero(code - ref) else "different", "" if is_zero(code - ref) else f"code - chain rule = {repr(code - ref)[:200]}"))
+    return out
